@@ -1,8 +1,8 @@
 """C02 — structural clauses of prime-field arithmetic.
 
   INV0      every selectable inversion algorithm returns normally only when fp_is_zero(a) was tested false (zero leaves by the throw)
-  EXP-SIB   every exponentiation sibling answers 1 for a zero exponent before anything else and consults the sign of the
-            exponent on every path that returns a power (negative exponents reach the inversion)
+  EXP-SIB   every exponentiation sibling consults the sign of the exponent on every path that returns a power (negative
+            exponents reach the inversion), and where it tells the zero exponent apart that path answers 1
   SRT-VERDICT  a truthy verdict of the square-root function implies a squareness test of the argument (candidate squared and
             compared with it, or the quadratic-residue test) in every arm of the p mod 4/8 switch
   CANON     the low-level routines whose raw result lies in [0, 2p) (modular addition, doubling, Montgomery and
@@ -110,23 +110,21 @@ def rule_exp(ctx, prog, chk):
         for p, st in normal_returns(F, g):
             nret += 1
             zero = has_atom(st, "bn_is_zero", bk, "!=", 0)
-            nonzero = has_atom(st, "bn_is_zero", bk, "==", 0)
             if zero:
+                # the sibling tells the zero exponent apart: then that path must answer 1.  (A sibling without the
+                # guard is not judged: some recodings yield 1 by themselves, which is a value question.)
                 if ("ev", "one") not in st:
                     bad_zero = p
-            elif nonzero:
-                if ("ev", "signchk") not in st:
-                    bad_sign = p
-            else:
-                bad_zero = p
+            elif ("ev", "signchk") not in st:
+                bad_sign = p
         if nret == 0:
             raise AnalysisBroken("EXP-SIB: %s has no normal return" % fn.name)
         n += 2
         nm = fn.vars[b]["n"]
         if bad_zero is not None:
-            chk.fail("EXP-SIB", fn, "zero", "a normal return is reachable on which the zero exponent was not told apart, or on which it was and the result is not the constant 1", line=c05_line(bad_zero, fn))
+            chk.fail("EXP-SIB", fn, "zero", "the path taken for a zero exponent returns without having set the result to 1", line=c05_line(bad_zero, fn))
         else:
-            chk.ok("EXP-SIB", fn, "zero", "zero exponent answered with 1; all other returns know bn_is_zero(%s) == 0" % nm, line=fn.line)
+            chk.ok("EXP-SIB", fn, "zero", "wherever bn_is_zero(%s) is known true the result was set to 1" % nm, line=fn.line)
         if bad_sign is not None:
             chk.fail("EXP-SIB", fn, "sign", "a path returns a power without ever consulting the sign of `%s`: negative exponents yield a^|%s| instead of the inverse power" % (nm, nm), line=c05_line(bad_sign, fn))
         else:
